@@ -298,6 +298,45 @@ def direct_slip32(kind):
     return chk
 
 
+# ------------------------------------------------------------------ known finding (see findings.d/C05.json)
+
+def _kholaw_degenerate_key(raw):
+    return len(raw) == 64 and (int.from_bytes(raw[:32], "little") & ((1 << 255) - 1)) % ecref.ED25519.L == 0
+
+
+def known_kholaw_zero_scalar(fn, args, record):
+    """Bip32KholawEd25519 + a 64-byte private key whose scalar is 0 mod L: bare ValueError instead of Bip32KeyError.
+       Only the case where the implementation answered ValueError and the model / the property says Bip32KeyError."""
+    if record.get("kind") == "divergence":
+        if record.get("impl") != {"err": "ValueError"} or record.get("model") != {"err": "Bip32KeyError"}:
+            return False
+    elif "ValueError" not in record.get("what", "") or "Bip32KeyError" not in record.get("what", ""):
+        return False
+    if fn in ("c05_ser_priv", "c05_ser_pub_of_priv"):
+        return args[0] == 1 and _kholaw_degenerate_key(args[7])
+    if fn in ("c05_from_extended", "c05_reserialize"):
+        if args[0] != 1:
+            return False
+        try:
+            data = b58dec(args[3])[:-4]
+        except ValueError:
+            return False
+        return len(data) == 110 and data[:4] == args[2] and data[45] == 0 and _kholaw_degenerate_key(data[46:])
+    return False
+
+
+def known_kholaw_zero_scalar_replay():
+    try:
+        Bip32KholawEd25519.FromPrivateKey(bytes(64))
+    except Bip32KeyError:
+        return None
+    except ValueError as e:
+        return "Bip32KholawEd25519.FromPrivateKey(bytes(64)) -> ValueError: %s" % e
+    except Exception as e:  # noqa
+        return "Bip32KholawEd25519.FromPrivateKey(bytes(64)) -> %s" % type(e).__name__
+    return None
+
+
 def _m(name, zpos=()):
     def f(m, a):
         a = [Z(x) if k in zpos else x for k, x in enumerate(a)]
@@ -453,6 +492,21 @@ def corruptions(ctx, valid):
         ctx.run("c05_from_extended", [cls, pub, priv, "".join(t)], "text-damage", trivial=(not t))
 
 
+def gen_kholaw_degenerate(ctx):
+    """Kholaw private keys whose scalar is 0 mod the group order: no public key exists"""
+    rng = ctx.rng
+    L = ecref.ED25519.L
+    pub, priv = KHOLAW
+    for kl in (0, L, 2 * L, 8 * L, L | (1 << 255), 1 << 255):
+        raw = kl.to_bytes(32, "little") + rb(rng, 32)
+        ctx.run("c05_ser_priv", [1, pub, priv, 1, 5, rb(rng, 32), rb(rng, 4), raw], "kholaw-degenerate")
+        ctx.run("c05_from_extended", [1, pub, priv, b58c_enc(_layout(priv, 1, rb(rng, 4), 5, rb(rng, 32), b"\0" + raw))],
+                "kholaw-degenerate")
+    for kl in (1, L - 1, L + 1, 8, (1 << 255) | 8):
+        raw = kl.to_bytes(32, "little") + rb(rng, 32)
+        ctx.run("c05_ser_priv", [1, pub, priv, 1, 5, rb(rng, 32), rb(rng, 4), raw], "kholaw-near-degenerate")
+
+
 def gen_slip32(ctx):
     rng = ctx.rng
     std = ["xpub", "xprv"]
@@ -510,4 +564,5 @@ def gen_slip32(ctx):
 def generate(ctx):
     valid = gen_fields(ctx)
     corruptions(ctx, valid)
+    gen_kholaw_degenerate(ctx)
     gen_slip32(ctx)
